@@ -41,7 +41,7 @@ theorem pySorted_scalars {k : Kind} (hk : k = .num ∨ k = .str ∨ k = .bytes) 
   | [x] => rfl
   | x :: y :: r =>
     have hlen : ¬ (x :: y :: r).length ≤ 1 := by simp
-    have hun : (x :: y :: r).any (fun z => kind z == .unhashable) = false := by
+    have hun : (x :: y :: r).any (fun z => kind z == .unhashable || kind z == .float) = false := by
       rw [List.any_eq_false]; intro z hz; rw [h z hz]; rcases hk with rfl | rfl | rfl <;> simp
     have hmix : mixedKinds (x :: y :: r) = false := by
       unfold mixedKinds; rw [List.any_eq_false]; intro a ha
@@ -269,6 +269,12 @@ theorem nested_set_sensitive (x y : V) (r pre post : List V) (hxy : x ≠ y) :
 /-- The full-strength property does not hold of the code as it is. -/
 theorem order_independent_refuted : ¬ OrderIndependent H := fun h =>
   (refuted_nested_list H).2 (h _ _ (refuted_nested_list H).1)
+
+/-- look-alikes: `(1, 2)` and `(1.0, 2.0)` are `==` in Python but pickle differently - different pre-images -/
+example : getHash H (.tuple [.int 1, .int 2]) ≠ getHash H (.tuple [.float 0x3ff0000000000000, .float 0x4000000000000000]) := by
+  simp [getHash]
+/-- `0.0` and `-0.0` -/
+example : getHash H (.float 0) ≠ getHash H (.float 0x8000000000000000) := by simp [getHash]
 
 /-! ## non-vacuity -/
 example : getHash H (.set [sb, sa]) = getHash H (.set [sa, sb]) :=
